@@ -17,6 +17,7 @@ var universeMenu = []inputs.Input{
 	{Fam: "docx", N: 20, P: 50}, {Fam: "ole", N: 600}, {Fam: "png", N: 32}, {Fam: "gif", N: 8}, {Fam: "pdf", N: 30},
 	{Fam: "random", N: 64, Seed: 3}, {Fam: "empty"}, {Fam: "csv", N: 4, V: 3}, {Fam: "ndjson", N: 4}, {Fam: "shebang", V: 0, N: 5},
 	{Fam: "svg", N: 10}, {Fam: "text_nul", N: 100, P: 50}, {Fam: "latin1", N: 40, P: 5}, {Fam: "gzip", N: 10}, {Fam: "elf", N: 16},
+	{Fam: "tar", N: 20}, {Fam: "sample", V: 0}, {Fam: "sample", V: 3}, {Fam: "sample", V: 7}, {Fam: "sample", V: 10},
 	{Fam: "bom8", V: 0, P: 1}, {Fam: "bom8", V: 3}, {Fam: "utf8", N: 90, V: 3}, {Fam: "utf8", N: 40, V: 1, P: 1}, {Fam: "json_trunc", N: 120, P: 70}, {Fam: "json_bad", N: 120, P: 40, V: 1}, {Fam: "tsv", N: 3, V: 2}, {Fam: "rtf", N: 10},
 }
 
